@@ -164,3 +164,17 @@ check("C19",
       "Trusted: malloc(3) returns disjoint 16-byte aligned chunks (the model addresses memory as (frame, offset)); ASan poisoning itself is not modelled; scopes are "
       "well nested (cleanup attribute); size_t overflow of a requested size is not modelled (errx in the code); two arenas are independent model instances.",
       "DESIGN.md#c19")
+
+check("C14",
+      "Lean 4 proof over the regress-html model (cell iff ran, own link, status table translated from the source, rows = suites failing first, column order) + real robsd-regress-html under ASan on generated invocation trees, index.html parsed back and compared",
+      "Proof (RegressHtml.parseAll/sortSuites/row, any invocations incl. equal start times, several architectures, suites recorded twice): the cell of suite S under "
+      "invocation j shows exactly the first record of S in invocation j with the status derived from exit code and log and the link arch/date/log of that invocation "
+      "(cell_iff_ran, link_under_own_dir, status_*); one row per suite (rows_are_suites, rows_perm), failing suites first and each group in suite_cmp order "
+      "(failing_first); an accepted column order is a permutation newest first (columns_desc); a row is never wider than the table (row_width). The status table is "
+      "regenerated from regress-html.c (status_table_matches). Correspondence: the real binary (ASan+UBSan) renders generated robsd directories (1-3 arches, 1-40 "
+      "invocations, equal start seconds, sparse runs, duplicates, 16/17/32 invocations); index.html is parsed into columns/rows/cells, checked against the property "
+      "from the generated data alone and against the model on the same data; copied logs and dmesg are checked to exist below arch/date and to hold only lines of the "
+      "source log.",
+      "Partial: the pass-rate float expression is checked against its integer bounds only (fail/total counts are compared through them); html.c text layout and "
+      "escaping are not modelled (the parser of index.html is trusted); regress-log extraction is C13's model. Trusted: Lean kernel; translator; harness; ASan.",
+      "DESIGN.md#c14")
